@@ -20,6 +20,9 @@ ATTR = [
  ("fix: ZeroCrossing panicked", ["C08", "C15"]),
  ("fix: SymbolSync output depended", ["C08"]),
  ("fix: SymbolSync panicked", ["C08", "C15"]),
+ ("fix: MTGraph::run panicked when a block", ["C07"]),
+ ("fix: a stream wait could report 'never'", ["C04", "C05"]),
+ ("fix: NCReadStream::eof() could report EOF", ["C04", "C05"]),
 ]
 log = subprocess.run(["git", "-C", "/repo", "log", "--reverse", "--format=%h\t%s", "--grep", "^fix:"],
                      capture_output=True, text=True).stdout.strip().splitlines()
